@@ -186,7 +186,9 @@ def feedOracle (codec : String) (o : Orc) (inp : Bytes) (flags : Flags) (err : B
   -- C01 / C02 -------------------------------------------------------------
   let o1 : Orc := { o with layer := lay', seenSid, seenTid, limitKeySeen, lastArr := some u }
   if resync then
-    ({ o1 with U := u + 1, D := [], nD := 0, sentLog := [], pidTrack := false }, c04)
+    -- (the map restarts: so does the count of withheld frames; picture ids are judged afresh from here, not given up)
+    ({ o1 with U := u + 1, D := [], nD := 0, sentLog := [], pidTrack := true, pidK := 0, curPid := none, curFwd := false,
+               curHeld := false }, c04)
   else
     let oU : Orc := if u ≥ o.U then { o1 with U := u + 1 } else o1
     match sent with
